@@ -2,7 +2,7 @@
 import ast
 
 from .. import bits as B_
-from ..astutil import dotted, method_call
+from ..astutil import aug_form, dotted, effective, method_call
 from ..cfg import cfg_of, fact_key, norm, walk_own
 from ..consteval import Scope, fold_in
 from ..mutate import B, M
@@ -45,8 +45,8 @@ def check(ctx):
     ctx.inst('R1', gw, 'w:function-bits-5..0', B_.is_input_field(b1, 0, 6, 'fn'), 'byte 1 %s' % B_.describe(b1, 8))
     ctx.inst('R1', gw, 'w:version-bits-7..6', B_.is_input_field(b1, 6, 2, 'ver') and all(b == 0 for b in b1[8:]), 'byte 1 %s' % B_.describe(b1, 8))
     g = cfg_of(gw)
-    lp = [n for n in g.nodes if n.kind == 'stmt' and isinstance(n.ast, ast.AugAssign) and norm(n.ast.target) == 'targetsAndFlags']
-    ok = len(lp) == 1 and isinstance(lp[0].ast.op, ast.BitOr) and fold_in(gw, lp[0].ast.value) == 0x40 and fact_key('self.lastPacket', True) in g.fact_keys_at(lp[0])
+    lp = [n for n in g.nodes if n.kind == 'stmt' and aug_form(n.ast) and aug_form(n.ast)[0] == 'targetsAndFlags']
+    ok = len(lp) == 1 and aug_form(lp[0].ast)[1] is ast.BitOr and fold_in(gw, aug_form(lp[0].ast)[2]) == 0x40 and fact_key('self.lastPacket', True) in g.fact_keys_at(lp[0])
     ctx.inst('R1', gw, 'w:last-packet-bit-6', ok, 'last-packet flag is bit 6 of byte 0, set iff lastPacket')
     ext = [c for c in walk_own(gw.node) if method_call(c, 'extend')]
     ok = len(ext) == 2 and norm(ext[0].args[0]) == "struct.pack('<BB', targetsAndFlags, functionAndVersion)" and norm(ext[1].args[0]) == 'self.data'
@@ -69,9 +69,9 @@ def check(ctx):
     ctx.inst('R1', sw, 'r:function', B_.is_input_field(fb, 0, 6, 'b1', 0) and all(b == 0 for b in fb[6:]) and norm(rst['self.function'].func) == 'CPXFunction', 'function read as %s' % B_.describe(fb, 8))
     ctx.inst('R1', sw, 'r:version', B_.is_input_field(vb, 0, 2, 'b1', 6) and all(b == 0 for b in vb[2:]), 'version read as %s' % B_.describe(vb, 8))
     lpn = rst.get('self.lastPacket')
-    ok = isinstance(lpn, ast.Compare) and isinstance(lpn.ops[0], ast.NotEq) and fold_in(sw, lpn.comparators[0]) == 0
+    ok = isinstance(lpn, ast.Compare) and isinstance(lpn.ops[0], ast.NotEq) and 0 in (fold_in(sw, lpn.comparators[0]), fold_in(sw, lpn.left))
     if ok:
-        lb = B_.evaluate(lpn.left, sc2, rin, rw)
+        lb = B_.evaluate(lpn.comparators[0] if fold_in(sw, lpn.left) == 0 else lpn.left, sc2, rin, rw)
         ok = lb[6] == ('in', 'b0', 6) and all(b == 0 for i, b in enumerate(lb) if i != 6)
     ctx.inst('R1', sw, 'r:last-packet', ok, 'last-packet read from bit 6 of byte 0')
     ctx.inst('R1', sw, 'r:payload', norm(rst.get('self.data')) == '%s[2:]' % d and norm(rst.get('self.length')) == 'len(self.data)', 'payload = data[2:], length = len(payload)')
@@ -98,10 +98,10 @@ def check(ctx):
     ctx.inst('R3', wp, 'prefix-format', wf == rf and isinstance(wf, str) and struct.calcsize(wf) == 2, 'length prefix format writer %r reader %r' % (wf, rf))
     pv = wp.params[1]
     ctx.inst('R3', wp, 'prefix-value', norm(pk[0].args[1]) == '%s.length + 2' % pv, 'prefix = payload length + 2 header bytes; found %s' % norm(pk[0].args[1]))
-    body = [norm(s) for s in wp.node.body]
+    body = [norm(s) for s in effective(wp.node.body)]
     ctx.inst('R3', wp, 'frame', body == ["data = bytearray(struct.pack(%r, %s.length + 2))" % (wf, pv), 'data += %s.wireData' % pv, 'self._socket.send(data)'] or
              (len(body) == 3 and body[1] == 'data += %s.wireData' % pv and body[2] in ('self._socket.send(data)', 'self._socket.sendall(data)')), 'frame = prefix + wire data, sent once; body %s' % body)
-    rb = [norm(s) for s in rp.node.body if not isinstance(s, ast.FunctionDef)]
+    rb = [norm(s) for s in effective(rp.node.body) if not isinstance(s, ast.FunctionDef)]
     ctx.inst('R3', rp, 'reader-sequence', rb[:5] == ["size = struct.unpack(%r, self._readData(2))[0]" % rf, 'data = self._readData(size)', 'packet = CPXPacket()', 'packet.wireData = data', 'return packet'],
              'reader: prefix from exactly 2 bytes, then exactly `size` bytes become the wire data; body %s' % rb[:5])
     ctx.inst('R3', rp, 'prefix-read-size', 'self._readData(2)' in rb[0] and struct.calcsize(rf) == 2, 'the prefix read asks for calcsize(prefix) = 2 bytes')
